@@ -297,6 +297,13 @@ def run(ctx: Context, rep) -> None:
            where=lpinit.qualname, construct="self._threads = max(1, threads or 1)",
            message="the pool's size is the caller's thread count")
 
+    from sa.rules.c13 import check_consumer
+    check_consumer(ctx, rep, "C14.inflight")
+    rep.rule(
+        "C14.inflight",
+        "the lazy pool keeps a bounded number of inputs in flight: after the "
+        "configuration-bounded prefill exactly one new input is enqueued "
+        "per dequeued result (same structural check as C13.consumer)")
     rustrules.check_pulls(ctx, rep, "C14.rust")
 
 
@@ -324,6 +331,9 @@ SELFTESTS = [
          new="            if i >= 2 * self._threads + 1:\n                break"),
     dict(rule="C14.bound", name="prefill-no-break", expect="fire", path=_LPF,
          old="            if i > 2 * self._threads:\n                break", new="            pass"),
+    dict(rule="C14.inflight", name="extra-enqueue-when-idle", expect="fire", path=_LPF,
+         old="            try:\n                # Avoid pydantic stop-iteration-return warning.\n                self._to_process.put(next(iterator_with_stops))",
+         new="            if self._active_threads > 1:\n                self._to_process.put(next(iterator_with_stops))\n            try:\n                # Avoid pydantic stop-iteration-return warning.\n                self._to_process.put(next(iterator_with_stops))"),
     dict(rule="C14.config", name="pool-size-cpu-count", expect="fire", path=_DI,
          old="                with LazyPool(file_parallelism) as pool:",
          new="                with LazyPool(os.cpu_count()) as pool:"),
